@@ -443,12 +443,11 @@ def coq_ner_expr(c, out):
 
 
 # ------------------------------------------------------------------ exhaustive small domain (thorough)
-def exhaustive_cases(rng, budget):
-    """all machines <= 3x3 (torus) with <= 3 dead directed links and <= 1 dead chip x source / sink
-    placements with fan-out <= 2 x radius in {0, 20}; when the whole domain exceeds [budget] cases the
-    dead-link sets are sampled uniformly (the count of the full domain is recorded)"""
+def exhaustive_domain():
+    """all machines <= 3x3 (all wrap-around links present) with every set of <= 3 dead directed links and <= 1 dead
+    chip x source / sink placements with fan-out <= 2 x radius in {0, 20}: per size, the list of dead-link sets and
+    the list of (dead chips, source chip, sink chips)"""
     out = []
-    total = 0
     for w in (1, 2, 3):
         for h in (1, 2, 3):
             chips = [(x, y) for x in range(w) for y in range(h)]
@@ -457,42 +456,59 @@ def exhaustive_cases(rng, budget):
             for k in (1, 2, 3):
                 linksets += list(itertools.combinations(links, k))
             deadsets = [()] + [(ch,) for ch in chips if len(chips) > 1]
-            combos = []
+            pls = []
             for dc in deadsets:
                 live = [ch for ch in chips if ch not in dc]
-                pls = []
                 for s in live:
-                    pls.append((s, ()))
+                    pls.append((dc, s, ()))
                     for a in live:
-                        pls.append((s, (a,)))
+                        pls.append((dc, s, (a,)))
                         for b in live:
                             if a <= b:
-                                pls.append((s, (a, b)))
-                combos.append((dc, pls))
-            n_here = len(linksets) * sum(len(p) for _, p in combos) * 2
-            total += n_here
-            out.append((w, h, linksets, combos, n_here))
-    cases = []
-    for w, h, linksets, combos, n_here in out:
-        share = max(200, int(budget * n_here / float(total)))
-        per_ls = sum(len(p) for _, p in combos) * 2
-        if n_here <= share:
+                                pls.append((dc, s, (a, b)))
+            out.append((w, h, linksets, pls))
+    return out
+
+
+def exhaustive_chunks(rng, budget_large, chunk=4000):
+    """-> (generator of case lists, description).  Sizes with at most 1.2 million cases are enumerated completely;
+    for the larger ones (2x3, 3x2, 3x3) dead-link sets are sampled uniformly, [budget_large] cases per size."""
+    dom = exhaustive_domain()
+    plan = []
+    desc = {}
+    for w, h, linksets, pls in dom:
+        n_here = len(linksets) * len(pls) * 2
+        if n_here <= 1200000:
             chosen = linksets
+            desc["%dx%d" % (w, h)] = "complete (%d cases)" % n_here
         else:
-            chosen = [()] + rng.sample(linksets, max(1, share // per_ls))
-        for ls in chosen:
-            for dc, pls in combos:
-                for s, sinks in pls:
+            k = max(1, budget_large // (len(pls) * 2))
+            chosen = [()] + rng.sample(linksets, k)
+            desc["%dx%d" % (w, h)] = "%d of %d dead-link sets x all placements (%d of %d cases)" % (
+                len(chosen), len(linksets), len(chosen) * len(pls) * 2, n_here)
+        plan.append((w, h, chosen, pls))
+    seeds = [rng.randrange(TWO53) for _ in range(20)]
+
+    def gen():
+        cur = []
+        for w, h, chosen, pls in plan:
+            for ls in chosen:
+                dl = [list(x) for x in ls]
+                for dc, s, sinks in pls:
                     for radius in (0, 20):
-                        placements = [[0, list(s)]] + [[i + 1, list(x)] for i, x in enumerate(sinks)]
-                        cases.append(dict(
-                            machine=dict(w=w, h=h, dead_chips=[list(x) for x in dc],
-                                         dead_links=[list(x) for x in ls]),
+                        cur.append(dict(
+                            machine=dict(w=w, h=h, dead_chips=[list(x) for x in dc], dead_links=dl),
                             nets=[dict(source=0, sinks=list(range(1, len(sinks) + 1)))],
-                            placements=placements, allocs=[[i + 1, [1, 2]] for i in range(len(sinks))],
-                            cons=[], radius=radius, stream=[rng.randrange(TWO53) for _ in range(20)],
+                            placements=[[0, list(s)]] + [[i + 1, list(x)] for i, x in enumerate(sinks)],
+                            allocs=[[i + 1, [1, 2]] for i in range(len(sinks))],
+                            cons=[], radius=radius, stream=seeds,
                             kind="valid", topo="torus", fault="exhaustive", sstyle="random"))
-    return cases, total
+                        if len(cur) >= chunk:
+                            yield cur
+                            cur = []
+        if cur:
+            yield cur
+    return gen(), desc
 
 
 # ------------------------------------------------------------------ the check
@@ -508,7 +524,8 @@ def run(chk, args):
                     "harness replaces rig.geometry.random / route.utils.random by a scripted source and wraps "
                     "ner.ner_net / ner.copy_and_disconnect_tree for logging (module attributes, no source edit)",
                     "Model/Geometry.v (C11) models shortest_torus_path / longest_dimension_first / "
-                    "concentric_hexagons; tied to the code by the exact tree equality of this run"]
+                    "concentric_hexagons; tied to the code by the exact tree equality of this run; the theorems of "
+                    "C11 (Proofs/Geometry.v) are used by C03_ner_net_tree"]
     chk.assumptions += ["vertices are hashable objects (integers in the harness); placements put the source and "
                         "every sink on a working chip of the machine; width, height >= 1",
                         "random.random() returns k / 2^53 with 0 <= k < 2^53",
@@ -516,38 +533,14 @@ def run(chk, args):
     chk.regenerate(UNITS)
     built = chk.prove()
     rng = chk.rng
-    if args.replay:
-        rp = json.load(open(args.replay))
-        cases = [f["replay"]["case"] for f in rp.get("failures", []) if "case" in f.get("replay", {})]
-        cases += [b["replay"]["case"] for b in rp.get("no_longer_checks", []) if "case" in b.get("replay", {})]
-        domain_total = 0
-    else:
-        n_route = 1500 if chk.tier == "quick" else 40000
-        n_ner = 500 if chk.tier == "quick" else 10000
-        cases = [gen_case(rng, malformed=(i % 25 == 24), dense=(i % 3 == 0)) for i in range(n_route)]
-        # the hexagon-scan branch needs more than 3 * (1 + 3r(r+1)) route nodes: large fan-out
-        for i in range(20 if chk.tier == "quick" else 300):
-            c = gen_case(rng, dims=rng.choice([(8, 8), (9, 8), (10, 10)]))
-            cases.append(c)
-        cases += [gen_ner_case(rng) for _ in range(n_ner)]
-        domain_total = 0
-        if chk.tier == "thorough":
-            ex, domain_total = exhaustive_cases(rng, 400000)
-            cases += ex
-            chk.count("exhaustive-domain-size", domain_total)
-            chk.count("exhaustive-cases-run", len(ex))
-    corpus = os.path.join(lib.VERIF, "corpus", "C03.json")
-    if os.path.exists(corpus) and not args.replay:
-        cases = json.load(open(corpus)) + cases
-    # implementation
-    size = 250 if chk.tier == "quick" else 4000
-    chunks = [cases[i:i + size] for i in range(0, len(cases), size)]
-    outs = [o for part in chk.impl_parallel("impl_c03.py", chunks, timeout=3000) for o in part]
-    keep = [i for i, o in enumerate(outs) if o != ["skipped"]]
-    cases, outs = [cases[i] for i in keep], [outs[i] for i in keep]
-    exprs, owners = [], []
-    sampled = False
-    for idx, (c, o) in enumerate(zip(cases, outs)):
+    quick = chk.tier == "quick"
+    pending = []            # (case, out, net index or None): to be evaluated in Coq
+    state = dict(sampled=False)
+
+    def judge(c, o, coq=True):
+        """counts, independent oracle, and the Coq expressions of one executed case"""
+        if o == ["skipped"]:
+            return
         if c["kind"] == "ner":
             chk.count("kind:ner_net")
             chk.count("ner:%s" % ("torus" if c["wrap"] else "mesh"))
@@ -556,10 +549,9 @@ def run(chk, args):
             bad = oracle_ner(c, o)
             if bad:
                 chk.fail_input(bad[0], bad[1], dict(case=c, observed=o))
-            elif o != ["hang"] and o["ner"][0] == "n":
-                exprs.append(coq_ner_expr(c, o))
-                owners.append((idx, None))
-            continue
+            elif coq and o != ["hang"] and o["ner"][0] == "n":
+                pending.append((c, o, None))
+            return
         chk.count("kind:route/%s" % c["kind"])
         chk.count("topology:%s" % c["topo"])
         chk.count("faults:%s" % c["fault"])
@@ -580,26 +572,81 @@ def run(chk, args):
         bad = oracle(c, o)
         if bad:
             chk.fail_input(bad[0], bad[1], dict(case=c, observed=o))
-        if not sampled and c["kind"] == "valid" and o != ["hang"] and o["nets"] and \
-                o["nets"][0].get("broken"):
+        if not state["sampled"] and c["kind"] == "valid" and o != ["hang"] and o["nets"] and \
+                o["nets"][0].get("broken") and c["machine"]["w"] * c["machine"]["h"] <= 25:
             chk.sample(dict(case=c, implementation=o))
-            sampled = True
-        if o != ["hang"]:
+            state["sampled"] = True
+        if coq and o != ["hang"]:
             for i in range(len(o["nets"])):
-                exprs.append(coq_route_expr(c, o, i))
-                owners.append((idx, i))
+                pending.append((c, o, i))
+
+    if args.replay:
+        rp = json.load(open(args.replay))
+        cases = [f["replay"]["case"] for f in rp.get("failures", []) if "case" in f.get("replay", {})]
+        cases += [b["replay"]["case"] for b in rp.get("no_longer_checks", []) if "case" in b.get("replay", {})]
+    else:
+        n_route = 1500 if quick else 30000
+        n_ner = 500 if quick else 8000
+        cases = [gen_case(rng, malformed=(i % 25 == 24), dense=(i % 3 == 0)) for i in range(n_route)]
+        # the hexagon-scan branch needs more than 3 * (1 + 3r(r+1)) route nodes: large fan-out
+        for i in range(20 if quick else 300):
+            cases.append(gen_case(rng, dims=rng.choice([(8, 8), (9, 8), (10, 10)])))
+        cases += [gen_ner_case(rng) for _ in range(n_ner)]
+        corpus = os.path.join(lib.VERIF, "corpus", "C03.json")
+        if os.path.exists(corpus):
+            cases = json.load(open(corpus)) + cases
+    # implementation on the materialised cases
+    size = 170 if quick else 2500
+    chunks = [cases[i:i + size] for i in range(0, len(cases), size)]
+    outs = [o for part in chk.impl_parallel("impl_c03.py", chunks, timeout=3000) for o in part]
+    for c, o in zip(cases, outs):
+        judge(c, o)
+    # a larger dense-fault stream judged by the independent oracle only (the repair step is where trees go wrong;
+    # about one dense case in a thousand made the code as found attach a chip twice)
+    if not args.replay:
+        n_dense = 8000 if quick else 150000
+        dense = [gen_case(rng, dense=True) for _ in range(n_dense)]
+        dchunks = [dense[i:i + 700] for i in range(0, len(dense), 700)]
+        for part, outp in zip(dchunks, chk.impl_parallel("impl_c03.py", dchunks, timeout=3000)):
+            for c, o in zip(part, outp):
+                judge(c, o, coq=False)
+    # thorough: the exhaustive small domain, streamed; the oracle judges every case, the model / validators are
+    # evaluated in Coq on every 25th
+    if not quick and not args.replay:
+        import concurrent.futures
+        gen, desc = exhaustive_chunks(rng, 500000)
+        for k, v in desc.items():
+            chk.coverage.setdefault("exhaustive", {})[k] = v
+        n_ex = [0]
+
+        def work(chunk):
+            return chunk, chk.impl("impl_c03.py", chunk, timeout=3000)
+        with concurrent.futures.ThreadPoolExecutor(max_workers=12) as ex:
+            futs = []
+            for chunk in gen:
+                futs.append(ex.submit(work, chunk))
+                if len(futs) >= 24:
+                    done = futs.pop(0).result()
+                    for c, o in zip(*done):
+                        n_ex[0] += 1
+                        judge(c, o, coq=(n_ex[0] % 25 == 0))
+            for f in futs:
+                for c, o in zip(*f.result()):
+                    n_ex[0] += 1
+                    judge(c, o, coq=(n_ex[0] % 25 == 0))
+        chk.count("exhaustive-cases-run", n_ex[0])
     # model + validators inside Coq
     if chk.model_ok and built is not False:
+        exprs = [coq_ner_expr(c, o) if i is None else coq_route_expr(c, o, i) for c, o, i in pending]
         try:
-            vals = chk.coq_eval(HEADER, exprs, shard=120 if chk.tier == "quick" else 400, timeout=2400)
+            vals = chk.coq_eval(HEADER, exprs, shard=max(40, min(400, -(-len(exprs) // 12))), timeout=3000)
         except RuntimeError as e:
             chk.oblige("correspondence:model-evaluates", False, str(e))
             vals = None
         if vals is not None:
             n_ner = n_fin = n_v = 0
             ok = True
-            for (idx, i), v in zip(owners, vals):
-                c, o = cases[idx], outs[idx]
+            for (c, o, i), v in zip(pending, vals):
                 chk.traces_validated += 1
                 if i is None:
                     n_ner += 1
@@ -650,11 +697,15 @@ def run(chk, args):
                            "tree equality (%d nets), check_tree accepted / agreed with the oracle on %d real outputs"
                            % (n_ner, n_fin, n_v), True)
     chk.coverage["rule"] = (
-        "route(): random machines up to 7x7 (plus 8x8..10x10 for the hexagon-scan branch) incl. 1xN and 2xN, torus / "
-        "mesh / partly wrapped, dead chips, dead links in one or both directions, clustered faults; 1-3 nets, fan-out "
-        "0..2*chips, sinks on the source chip, duplicated sinks, core allocations / endpoint constraints / neither, "
-        "radius in {0,1,2,20}, scripted random stream (random / all-zero / all-max / few values / edge values); every "
-        "25th case has a sink on a dead chip (not judged). ner_net alone on fault-free meshes and tori with duplicated "
-        "destinations. thorough: + exhaustive machines <= 3x3 with <= 3 dead directed links and <= 1 dead chip x "
-        "placements with fan-out <= 2 x radius {0,20} (sampled over dead-link sets when above the budget; domain size "
-        "in input_distribution). non-trivial = valid case with at least one sink; distinct by hash of the whole case")
+        "route(): random machines up to 7x7 (plus 8x8..10x10 for the hexagon-scan branch, up to 8x12 in the dense-fault "
+        "stream) incl. 1xN and 2xN, torus / mesh / partly wrapped, dead chips, dead links in one or both directions, "
+        "clustered faults, every third case dense faults (10-20 % of the directed links dead, 0-5 dead chips) plus a larger "
+        "dense-fault stream judged by the oracle only (8000 cases quick, 150000 thorough); 1-3 nets, "
+        "fan-out 0..2*chips, sinks on the source chip, duplicated sinks, core allocations / endpoint constraints / "
+        "neither, radius in {0,1,2,3,20}, scripted random stream (random / all-zero / all-max / few values / edge "
+        "values); every 25th case has a sink on a dead chip (not judged). ner_net alone on fault-free meshes and tori "
+        "with duplicated destinations. corpus/C03.json (inputs on which the code as found attached a chip twice) first. "
+        "thorough: + machines <= 3x3 with <= 3 dead directed links and <= 1 dead chip x all source / sink placements with "
+        "fan-out <= 2 x radius {0,20}: complete for the sizes listed as complete under coverage.exhaustive, dead-link "
+        "sets sampled uniformly for the others; the oracle judges every case, Coq every 25th. non-trivial = valid case "
+        "with at least one sink; distinct by hash of the whole case")
